@@ -147,6 +147,14 @@ def run(chk, tier, seed):
                 chk.violation(sig, f'{what}: attribute {attr} of the matcher can be assigned (not immutable)', None)
             except AttributeError:
                 pass
+        for target in (copy.copy(o), copy.copy(getattr(o, '_matcher', None))):
+            for attr in (('_matcher', '_hash') if target.__class__.__name__ == 'WcMatcher' else ('_include', '_exclude', '_follow', '_hash')):
+                try:
+                    delattr(target, attr)
+                    chk.violation(sig, f'{what}: attribute {attr} of {target.__class__.__name__} can be deleted (not immutable)',
+                                  PRELUDE + f"m = {what}\nobj = m if {target.__class__.__name__ == 'WcMatcher'} else m._matcher\ntry:\n    del obj.{attr}\nexcept AttributeError:\n    sys.exit(0)\nprint('deleted {attr}')\nsys.exit(1)\n")
+                except AttributeError:
+                    pass
         inner = getattr(o, '_matcher', None)
         for attr in ('_include', '_exclude', '_real', '_path', '_follow', '_hash'):
             try:
